@@ -1,0 +1,79 @@
+//go:build verif
+
+package s2
+
+// Read access for the verification harness (property C06): the contents of the cells of a
+// ShapeIndex, the candidate sets of CrossingEdgeQuery, and a Polygon built from loops with
+// given depths without the geometric nesting computation. Add-only; no behaviour of the
+// package changes.
+
+// VerifClipped is one clippedShape of an index cell.
+type VerifClipped struct {
+	ShapeID        int32
+	ContainsCenter bool
+	Edges          []int
+}
+
+// VerifCell is one index cell.
+type VerifCell struct {
+	ID     CellID
+	Shapes []VerifClipped
+}
+
+// VerifCells builds the index if needed and returns its cells in index order.
+func (s *ShapeIndex) VerifCells() []VerifCell {
+	s.maybeApplyUpdates()
+	out := make([]VerifCell, 0, len(s.cells))
+	for _, id := range s.cells {
+		c := VerifCell{ID: id}
+		if cell := s.cellMap[id]; cell != nil {
+			for _, cl := range cell.shapes {
+				c.Shapes = append(c.Shapes, VerifClipped{cl.shapeID, cl.containsCenter, append([]int(nil), cl.edges...)})
+			}
+		}
+		out = append(out, c)
+	}
+	return out
+}
+
+// VerifC06Candidates returns CrossingEdgeQuery.candidates(a, b, shape).
+func VerifC06Candidates(q *CrossingEdgeQuery, a, b Point, shape Shape) []int {
+	return append([]int(nil), q.candidates(a, b, shape)...)
+}
+
+// VerifC06CandidatesEdgeMap returns CrossingEdgeQuery.candidatesEdgeMap(a, b).
+func VerifC06CandidatesEdgeMap(q *CrossingEdgeQuery, a, b Point) EdgeMap {
+	return q.candidatesEdgeMap(a, b)
+}
+
+// VerifC06PolygonRaw returns the Polygon holding exactly the given loops, in the given order,
+// with the given depths (what Polygon.Decode builds), skipping the nesting computation.
+func VerifC06PolygonRaw(loops []*Loop, depths []int) *Polygon {
+	p := &Polygon{loops: loops}
+	for i, l := range loops {
+		l.depth = depths[i]
+	}
+	p.initLoopProperties()
+	return p
+}
+
+// VerifC06ContainsBruteForce is the package's own brute-force containment test for a shape.
+func VerifC06ContainsBruteForce(shape Shape, p Point) bool { return containsBruteForce(shape, p) }
+
+// VerifC06CellPadding returns the padding the index applies to its cells.
+func VerifC06CellPadding() float64 { return cellPadding }
+
+// VerifC06VisitedCells returns the ids of the index cells CrossingEdgeQuery.getCellsForEdge(a, b)
+// collects, in the order collected.
+func VerifC06VisitedCells(q *CrossingEdgeQuery, a, b Point) []CellID {
+	q.getCellsForEdge(a, b)
+	byPtr := make(map[*ShapeIndexCell]CellID, len(q.index.cellMap))
+	for id, c := range q.index.cellMap {
+		byPtr[c] = id
+	}
+	out := make([]CellID, 0, len(q.cells))
+	for _, c := range q.cells {
+		out = append(out, byPtr[c])
+	}
+	return out
+}
